@@ -63,12 +63,21 @@ def run(chk):
     chk.rule("R05.2", "Err paths of update_* end in the full reset; from_* literals start with empty scores/padding 0/no predictor")
     chk.rule("R05.3", "tags length form == n_tags form * len() at every exit of a function that changes either")
     chk.rule("R05.4", "no unwrap-on-None / explicit panic reachable in the parse loops (finite abstract state fixpoint)")
+    kill_rules(chk, w)
+    literal_rules(chk, w)
+    # ---------------------------------------------------------------- R05.3
+    r053(chk, w)
+    # ---------------------------------------------------------------- R05.4
+    from . import c05_total
+    c05_total.run(chk, w)
+
+
+def kill_rules(chk, w):
+    """R05.1 / R05.2 (also the history clause R08.1 of C08)"""
     fields = C.sentence_fields(w)
     E = effects.Effects(w)
     reset = C.find_reset_fn(w)
     chk.fn(reset)
-
-    # ---------------------------------------------------------------- R05.1 / R05.2
     n_inst = 0
     targets = [(C.S + "::" + u, "Ok") for u in UPDATES] + [(reset, None)]
     for fn, cls in targets:
@@ -109,6 +118,9 @@ def run(chk):
                        % (fn, reset) if not (ok and not later) else "reset is the last write", site=C.site(b))
     chk.floor("R05.1", "functions x fields", n_inst, 4 * 12)
 
+
+def literal_rules(chk, w):
+    fields = C.sentence_fields(w)
     # from_* literals
     n_lit = 0
     for fr in FROMS:
@@ -142,12 +154,6 @@ def run(chk):
                        "constructor %s initialises `%s` to %r instead of empty/0/None" % (fn, f, x) if not ok else "empty/0/None",
                        site=C.site(b))
     chk.floor("R05.2", "from_* literal fields", n_lit, 3 * 5)
-
-    # ---------------------------------------------------------------- R05.3
-    r053(chk, w)
-    # ---------------------------------------------------------------- R05.4
-    from . import c05_total
-    c05_total.run(chk, w)
 
 
 def _writers_of_tag_shape(w):
